@@ -819,6 +819,20 @@ pub fn gen(rng: &mut Rng, n: usize) -> Vec<Case> {
         let subject = gen_subject(rng, 10, false);
         let nest = if rng.chance(45) { 2 } else { 0 };
         let mut prog = vec![gen_scan(rng, Subj::Lit(subject), &mut tag, nest, 4)];
+        // focused: an arm that depends on where the remaining text STARTS (`\\b`, `^`) misses at first and matches only
+        // after another arm has consumed the text in front of it
+        if rng.chance(12) {
+            let (x, y) = *rng.pick(&[("a", "b"), ("b", "a"), ("ab", "c"), ("é", "a"), ("a", "é")]);
+            let ctx = *rng.pick(&["\\b", "^", "^\\b"]);
+            let first = parse_regex(&format!("{}{}", ctx, y)).expect("context arm in sub-language");
+            let second = parse_regex(x).expect("literal arm");
+            let mut arms = vec![first, second];
+            if rng.chance(40) { arms.push(parse_regex(*rng.pick(&["c", "[^a-z]", "(.)"])).unwrap()); }
+            if rng.chance(50) { arms.swap(0, 1); }
+            let subject = format!("{}{}{}", x, y, if rng.chance(50) { format!("{}{}", x, y) } else { String::new() });
+            let arms = arms.into_iter().map(|re| { tag += 1; let ks = vec![0]; (re, vec![Stmt::Node { tag, ks }]) }).collect();
+            prog = vec![Stmt::Scan { subj: Subj::Lit(subject), arms }];
+        }
         if rng.chance(3) {
             // `$k` outside any scan arm: current_regex_captures is empty
             tag += 1;
